@@ -267,6 +267,7 @@ impl World for C03 {
         let mut o = Outcome::default();
         verif_hooks::set_poison(true);
         verif_hooks::set_quarantine(case["quarantine"].as_bool().unwrap_or(true));
+        verif_hooks::census_enable(true);
         let (reference, sp0, _) = run_history(case, &json!({"kind": "never"}));
         let mut log = reference.clone();
         let text = case["evals"].to_string();
@@ -315,6 +316,10 @@ impl World for C03 {
             }
         }
         o.bump("bytes_poisoned", 0);
+        for (what, ty, n) in verif_hooks::census_take() {
+            o.bump(&format!("census.{what}.{ty}"), n);
+        }
+        verif_hooks::census_enable(false);
         o.log_hash = kit::hash_lines(&log);
         o
     }
